@@ -248,6 +248,8 @@ static std::string cmd_exec(const std::vector<std::string>& a) {
     valtype script_after(inst.env->script.begin(), inst.env->script.end());
     std::ostringstream o;
     o << "before=" << before << " result=" << r << " after=" << (ok ? full_state(inst) : std::string("-")) << " script_same=" << (script_before == script_after ? 1 : 0);
+    // after a failure: the session as the failed exec left it (operations before the failing one stay applied)
+    if (!ok && r != "UNCAUGHT") o << " afterfail=" << full_state(inst);
     return o.str();
 }
 
